@@ -28,6 +28,8 @@ HOWS = {
 def configure(cfg, r, tier):
     cfg["initial"] = [r.choice(["H", "H", "H", "SC", "DH"]) for _ in range(r.choice([1, 2]))]
     cfg["faults"] = False
+    if r.random() < 0.3:
+        cfg["profile"] = "wide"
     cfg["steps"] = r.randint(12, 40) if tier == "quick" else r.randint(25, 100)
     cfg["p_derive"] = r.choice([0.15, 0.25, 0.35])
     cfg["p_sub"] = 0.08
